@@ -28,17 +28,57 @@ Proof.
   intros [H|H]; [exfalso; eapply ladds_no_del; eauto | exact H].
 Qed.
 
+Lemma bapply_nodup : forall m b, NoDup (mkeys m) -> NoDup (mkeys (bapply m b)).
+Proof. intros m [k v|k] H; cbn -[mset]; [apply nodup_mset | apply nodup_mdel]; exact H. Qed.
+
+Lemma bfold_nodup : forall b m, NoDup (mkeys m) -> NoDup (mkeys (fold_left bapply b m)).
+Proof.
+  induction b as [|b0 b IH]; intros m H; cbn -[bapply]; [exact H|].
+  apply IH. apply bapply_nodup. exact H.
+Qed.
+
 (* what an event makes of the registry's map *)
 Lemma rvals_step : forall s e, rvals (step s e) = truth_step (rvals s) e.
-Proof. intros s [k v|k|snap calls|x order]; reflexivity. Qed.
+Proof. intros s [k v|k|snap calls|x order|b]; reflexivity. Qed.
 
 Lemma truth_step_nodup : forall t e, NoDup (mkeys t) -> NoDup (mkeys (truth_step t e)).
 Proof.
-  intros t [k v|k|snap calls|x order] H; cbn -[mset].
+  intros t [k v|k|snap calls|x order|b] H; cbn -[mset].
   - apply nodup_mset. exact H.
   - apply nodup_mdel. exact H.
   - apply snap_map_nodup.
   - exact H.
+  - apply bfold_nodup. exact H.
+Qed.
+
+(* one PUT / DELETE *)
+Lemma single_step : forall r b c, NoDup (mkeys r) -> cont_ok r c ->
+  cont_ok (bapply r b) (c_run c [blev b]).
+Proof.
+  intros r b c Hd [m [R Ht]]. destruct b as [k v|k]; cbn [bapply blev].
+  - apply (batch_tied (cexcl c) c m r); try assumption; try reflexivity; cbn -[mset].
+    + intros k' v' [H|[]]. inversion H; subst. rewrite mget_mset, Z.eqb_refl. reflexivity.
+    + intros k' v'. rewrite mget_mset. destruct (k =? k') eqn:Ek.
+      * apply Z.eqb_eq in Ek. intros H _. inversion H; subst. left. reflexivity.
+      * intros H Hn. congruence.
+    + intros k' [H|[]]. discriminate.
+    + intros k'. rewrite mget_mset. destruct (k =? k'); [discriminate | congruence].
+  - apply (batch_tied (cexcl c) c m r); try assumption; try reflexivity; cbn.
+    + intros k' v' [H|[]]. discriminate.
+    + intros k' v'. rewrite mget_mdel. destruct (k =? k'); [discriminate | congruence].
+    + intros k' [H|[]]. inversion H; subst. rewrite mget_mdel, Z.eqb_refl. reflexivity.
+    + intros k'. rewrite mget_mdel. destruct (k =? k') eqn:Ek.
+      * apply Z.eqb_eq in Ek. subst. intros _ _. left. reflexivity.
+      * congruence.
+Qed.
+
+(* several events in one handleWatchEvents call: one after the other *)
+Lemma batch_seq : forall b r c, NoDup (mkeys r) -> cont_ok r c ->
+  cont_ok (fold_left bapply b r) (c_run c (map blev b)).
+Proof.
+  induction b as [|b0 b IH]; intros r c Hd H; cbn -[bapply]; [exact H|].
+  apply IH; [apply bapply_nodup; exact Hd|].
+  apply (single_step r b0 c Hd H).
 Qed.
 
 (* an already present listener through one event *)
@@ -47,23 +87,11 @@ Lemma present_cont_step : forall s e c,
   cont_ok (rvals (step s e)) (c_run c (emitted e)).
 Proof.
   intros s e c Hd Hwf [m [R Ht]].
-  destruct e as [k v|k|snap calls|x order].
+  destruct e as [k v|k|snap calls|x order|b].
   - (* PUT *)
-    apply (batch_tied (cexcl c) c m (rvals s)); try assumption; try reflexivity; cbn -[mset].
-    + intros k' v' [H|[]]. inversion H; subst. rewrite mget_mset, Z.eqb_refl. reflexivity.
-    + intros k' v'. rewrite mget_mset. destruct (k =? k') eqn:Ek.
-      * apply Z.eqb_eq in Ek. intros H _. inversion H; subst. left. reflexivity.
-      * intros H Hn. congruence.
-    + intros k' [H|[]]. discriminate.
-    + intros k'. rewrite mget_mset. destruct (k =? k'); [discriminate | congruence].
+    apply (single_step (rvals s) (BPut k v) c Hd). exists m. split; assumption.
   - (* DELETE *)
-    apply (batch_tied (cexcl c) c m (rvals s)); try assumption; try reflexivity; cbn.
-    + intros k' v' [H|[]]. discriminate.
-    + intros k' v'. rewrite mget_mdel. destruct (k =? k'); [discriminate | congruence].
-    + intros k' [H|[]]. inversion H; subst. rewrite mget_mdel, Z.eqb_refl. reflexivity.
-    + intros k'. rewrite mget_mdel. destruct (k =? k') eqn:Ek.
-      * apply Z.eqb_eq in Ek. subst. intros _ _. left. reflexivity.
-      * congruence.
+    apply (single_step (rvals s) (BDel k) c Hd). exists m. split; assumption.
   - (* reload *)
     cbn [wf_ev] in Hwf.
     apply (batch_tied (cexcl c) c m (rvals s)); try assumption; try reflexivity;
@@ -78,6 +106,8 @@ Proof.
       rewrite calc_rem_in by exact Hd. tauto.
   - (* somebody else joins: no call *)
     cbn. exists m. split; assumption.
+  - (* one call with a batch of events *)
+    apply batch_seq; [exact Hd | exists m; split; assumption].
 Qed.
 
 Lemma joining_cont : forall r x order,
@@ -101,7 +131,7 @@ Lemma conts_step : forall s e,
   map (fun c => c_run c (emitted e)) (conts s) ++
   match e with EJoin x order => [c_run (new_container x) (ladds order)] | _ => [] end.
 Proof.
-  intros s [k v|k|snap calls|x order]; cbn [step conts]; rewrite ?app_nil_r; try reflexivity.
+  intros s [k v|k|snap calls|x order|b]; cbn [step conts]; rewrite ?app_nil_r; try reflexivity.
   f_equal. cbn. symmetry. rewrite <- (map_id (conts s)) at 2. apply map_ext. reflexivity.
 Qed.
 
@@ -113,7 +143,7 @@ Proof.
     + apply Forall_forall. intros c' Hin. apply in_map_iff in Hin. destruct Hin as [c [<- Hin]].
       apply present_cont_step; try assumption.
       rewrite Forall_forall in Hc. apply Hc. exact Hin.
-    + destruct e as [k v|k|snap calls|x order]; try constructor; [|constructor].
+    + destruct e as [k v|k|snap calls|x order|b]; try constructor; [|constructor].
       cbn [step rvals]. apply joining_cont; assumption.
 Qed.
 
@@ -194,21 +224,54 @@ Proof.
 Qed.
 
 (* ------------------------------------------------------------------ notifications *)
+Lemma add_kv_notes : forall k v c, cnotes (add_kv k v c) = cnotes c.
+Proof.
+  intros k v c. rewrite add_kv_unfold. cbn [cnotes]. unfold clear_excl.
+  destruct (cexcl _ && _).
+  - rewrite (proj1 (drk_all_notes _ _)). unfold detach.
+    destruct (mget k (cmap c)) as [old|]; [|reflexivity].
+    destruct (old =? v); [reflexivity | rewrite (proj1 (drk_notes _ _)); reflexivity].
+  - unfold detach. destruct (mget k (cmap c)) as [old|]; [|reflexivity].
+    destruct (old =? v); [reflexivity | rewrite (proj1 (drk_notes _ _)); reflexivity].
+Qed.
+
+Lemma add_kv_dirty : forall k v c, cdirty (add_kv k v c) = true.
+Proof. intros. rewrite add_kv_unfold. reflexivity. Qed.
+
+Lemma remove_key_dirty : forall k c, cdirty (remove_key k c) = true.
+Proof. reflexivity. Qed.
+
+Lemma remove_key_notes : forall k c, cnotes (remove_key k c) = cnotes c.
+Proof. intros. unfold remove_key, set_dirty. cbn. apply drk_notes. Qed.
+
+(* a notification right after a mutation rebuilds the snapshot: the listener funcs see
+   the fresh view *)
+Lemma notify_dirty : forall c, cdirty c = true ->
+  cnotes (notify c) = cnotes c + 1 /\ clast (notify c) = c_view c /\
+  c_view (notify c) = c_view c /\ cdirty (notify c) = false /\ csnap (notify c) = c_view c.
+Proof.
+  intros c H. unfold notify, notify_gen, get_values. rewrite H. cbn. repeat split; reflexivity.
+Qed.
+
+Lemma c_apply_mut : forall c e, exists c0,
+  c_apply c e = notify c0 /\ cdirty c0 = true /\ cnotes c0 = cnotes c.
+Proof.
+  intros c [k v|k].
+  - exists (add_kv k v c). split; [reflexivity|]. split; [apply add_kv_dirty | apply add_kv_notes].
+  - exists (remove_key k c). split; [reflexivity|]. split; [apply remove_key_dirty | apply remove_key_notes].
+Qed.
+
 Lemma c_apply_notes : forall c e, cnotes (c_apply c e) = cnotes c + 1.
 Proof.
-  intros c [k v|k]; cbn [c_apply on_add on_delete notify cnotes].
-  - rewrite add_kv_unfold. cbn [cnotes]. unfold clear_excl.
-    destruct (cexcl _ && _).
-    + rewrite (proj1 (drk_all_notes _ _)). unfold detach.
-      destruct (mget k (cmap c)) as [old|]; [|reflexivity].
-      destruct (old =? v); [reflexivity | rewrite (proj1 (drk_notes _ _)); reflexivity].
-    + unfold detach. destruct (mget k (cmap c)) as [old|]; [|reflexivity].
-      destruct (old =? v); [reflexivity | rewrite (proj1 (drk_notes _ _)); reflexivity].
-  - rewrite (proj1 (drk_notes _ _)). reflexivity.
+  intros c e. destruct (c_apply_mut c e) as [c0 [-> [Hd Hn]]].
+  rewrite (proj1 (notify_dirty c0 Hd)). lia.
 Qed.
 
 Lemma c_apply_last : forall c e, clast (c_apply c e) = c_view (c_apply c e).
-Proof. intros c [k v|k]; reflexivity. Qed.
+Proof.
+  intros c e. destruct (c_apply_mut c e) as [c0 [-> [Hd Hn]]].
+  destruct (notify_dirty c0 Hd) as [_ [H1 [H2 _]]]. congruence.
+Qed.
 
 Lemma c_run_notes : forall l c, cnotes (c_run c l) = cnotes c + Z.of_nat (length l).
 Proof.
@@ -282,4 +345,55 @@ Proof.
     apply calc_rem_in in Hin; [|exact Hd]. rewrite Hsame in Hin. tauto. }
   rewrite Ha, Hr in P. cbn in P.
   apply Permutation_sym, Permutation_nil in P. subst. reflexivity.
+Qed.
+
+(* ------------------------------------------------------------------ the getValues cache *)
+Definition snap_ok (c : container) : Prop := cdirty c = false -> csnap c = c_view c.
+
+(* every state a container can be in: any calls, with listener funcs that read Values()
+   or not, and Values() read by anybody at any time in between *)
+Inductive creach (x : bool) : container -> Prop :=
+| cr_new : creach x (new_container x)
+| cr_call : forall c e r, creach x c -> creach x (c_apply_gen r c e)
+| cr_read : forall c, creach x c -> creach x (fst (get_values c)).
+
+Lemma c_apply_gen_mut : forall r c e, exists c0,
+  c_apply_gen r c e = notify_gen r c0 /\ cdirty c0 = true.
+Proof.
+  intros r c [k v|k].
+  - exists (add_kv k v c). split; [reflexivity | apply add_kv_dirty].
+  - exists (remove_key k c). split; [reflexivity | apply remove_key_dirty].
+Qed.
+
+Lemma creach_snap_ok : forall x c, creach x c -> snap_ok c.
+Proof.
+  intros x c H. induction H as [|c e r H IH|c H IH].
+  - intros Hd. discriminate.
+  - destruct (c_apply_gen_mut r c e) as [c0 [-> Hd]]. destruct r.
+    + destruct (notify_dirty c0 Hd) as [_ [_ [H2 [_ H4]]]]. intros _.
+      change (notify_gen true c0) with (notify c0). congruence.
+    + intros Hf. cbn in Hf. congruence.
+  - unfold get_values. destruct (cdirty c) eqn:Ed; cbn.
+    + intros _. reflexivity.
+    + intros _. apply IH. exact Ed.
+Qed.
+
+Lemma snapshot_current : forall x c, creach x c -> c_values c = c_view c.
+Proof.
+  intros x c H. pose proof (creach_snap_ok x c H) as S.
+  unfold c_values, get_values. destruct (cdirty c) eqn:Ed; cbn; [reflexivity | apply S; exact Ed].
+Qed.
+
+Lemma c_run_reach : forall l x c, creach x c -> creach x (c_run c l).
+Proof.
+  induction l as [|e l IH]; intros x c H; cbn; [exact H|].
+  apply IH. change (c_apply c e) with (c_apply_gen true c e). apply cr_call. exact H.
+Qed.
+
+Lemma sys_snapshot_current : forall xs evs c,
+  In c (conts (run (init xs) evs)) -> c_values c = c_view c.
+Proof.
+  intros xs evs c Hin. rewrite conts_logs in Hin. apply in_map_iff in Hin.
+  destruct Hin as [[x l] [<- _]]. apply (snapshot_current x). unfold of_log. cbn.
+  apply c_run_reach. apply cr_new.
 Qed.
